@@ -105,7 +105,7 @@ def run(ctx):
             st = run_with_dump(run_, pool, on_violation, cov, graphs)
         # production capacities 9/290: enough rows for an internal node to split (a third level), graphs every 40 statements
         seeds = [ctx.seed * 1000 + i for i in range(2 if ctx.quick() else 12)]
-        agg = storelib.random_runs(ctx, pool, cov, [dict(seed=sd, n=(300 if ctx.quick() else 900), caps=([] if i % 3 != 1 else [5, 4]), cache=0, pcrash=(0.03 if i % 2 else 0), pflush=0.05,
+        agg = storelib.random_runs(ctx, pool, cov, [dict(seed=sd, n=(300 if ctx.quick() or i % 3 == 1 else 900), caps=([] if i % 3 != 1 else [5, 4]), cache=0, pcrash=(0.03 if i % 2 else 0), pflush=0.05,
                                                          wal=False, maxrows=30, bias="grow", graphevery=(100 if ctx.quick() else 40)) for i, sd in enumerate(seeds)])
         cov["random_max_levels"] = agg["max_tree_levels"]
     finally:
